@@ -172,9 +172,10 @@ pub fn judge(case: &Case) -> Verdict {
                     eb |= c.bit();
                 }
             }
+            // parsing text into a bit-set must be total (this property); WHICH set it yields is C15's clause ("a set built
+            // ... from text contains exactly the distinct real cards among its tokens") and is judged there, not here
             match guard(|| BinaryCard::from_index(&s)) {
                 Err(p) => Verdict::Violated { class: "panic:BinaryCard::from_index".into(), expected: format!("{:#x}", eb), observed: format!("panic: {}", p) },
-                Ok(b) if b != eb => Verdict::Violated { class: "BinaryCard::from_index:wrong-set".into(), expected: format!("{:#x} for {:?}", eb, s), observed: format!("{:#x}", b) },
                 Ok(_) => Verdict::Holds,
             }
         }
